@@ -219,6 +219,7 @@ func VerifTierCTruncate(tmpl string, all int) {
 	verif.Assume(verif.And(t >= 0, t < n))
 	r := &vcReader{data: w.buf, limit: t, all: all != 0}
 	lib2 := ast.NewKnowledgeLibrary()
+	verif.LimitIsViolation("C20:load-of-a-truncated-stream-terminates-within-budget")
 	kb2, err, pan := loadKB(r, true, lib2)
 	verif.Reach("tierC:truncated-load-returned")
 	if r.cutIn {
@@ -298,5 +299,37 @@ func VerifTierCEquiv(set string) {
 				c07Same(L+r+":twice-loaded-vs-stored:", a, c)
 			}
 		}
+	}
+}
+
+// VerifTierCOverwrite: overwrite=false leaves an EXISTING entry untouched - whether it holds rules or not - and reports it.
+func VerifTierCOverwrite(tmpl string) {
+	lib := zzkb.LoadLibrary(tmpl)
+	w := &vcWriter{}
+	if err := lib.StoreKnowledgeBaseToWriter(w, "T", "1"); err != nil {
+		panic(err)
+	}
+	verif.Reach("tierC:overwrite-case")
+	switch verif.Choice("existing-entry", 3) {
+	case 0: // no entry yet: the load succeeds
+		lib2 := ast.NewKnowledgeLibrary()
+		kb, err, pan := loadKB(&vcReader{data: w.buf, limit: len(w.buf)}, false, lib2)
+		verif.Assert("C12:overwrite-false:load-into-a-library-without-the-entry-succeeds", err == nil && !pan && kb != nil)
+	case 1: // an entry with rules exists
+		lib2 := ast.NewKnowledgeLibrary()
+		if _, err, pan := loadKB(&vcReader{data: w.buf, limit: len(w.buf)}, true, lib2); err != nil || pan {
+			verif.Stop("first load failed")
+		}
+		before := lib2.GetKnowledgeBase("T", "1")
+		n := len(before.RuleEntries)
+		_, err, pan := loadKB(&vcReader{data: w.buf, limit: len(w.buf)}, false, lib2)
+		verif.Assert("C12:overwrite-false:existing-entry-with-rules-is-reported", err != nil && !pan)
+		verif.Assert("C12:overwrite-false:existing-entry-left-untouched", lib2.GetKnowledgeBase("T", "1") == before && len(before.RuleEntries) == n)
+	case 2: // an entry WITHOUT rules exists (e.g. created by an earlier GetKnowledgeBase)
+		lib2 := ast.NewKnowledgeLibrary()
+		before := lib2.GetKnowledgeBase("T", "1")
+		_, err, pan := loadKB(&vcReader{data: w.buf, limit: len(w.buf)}, false, lib2)
+		verif.Assert("C12:overwrite-false:existing-empty-entry-is-reported", err != nil && !pan)
+		verif.Assert("C12:overwrite-false:existing-entry-left-untouched", lib2.GetKnowledgeBase("T", "1") == before && len(before.RuleEntries) == 0)
 	}
 }
